@@ -389,11 +389,54 @@ def run_solver(name, text, timeout):
 
 
 def solve(text, timeout, order=("z3-new", "z3", "cvc5")):
-    """Run the portfolio sequentially until a decisive answer. Returns dict."""
-    tried = []
+    """Race the portfolio: all back ends start at once, the first decisive answer wins (others are
+    killed). `sat` from one and `unsat` from another is reported as a conflict."""
+    os.makedirs(SCRATCH, exist_ok=True)
+    h = hashlib.sha1(text.encode()).hexdigest()[:16]
+    path = os.path.join(SCRATCH, f"q-{h}-{os.getpid()}-{id(text) % 100000}.smt2")
+    with open(path, "w") as f:
+        f.write(text)
+    t0 = time.time()
+    procs = {}
     for name in order:
-        res, out, dt = run_solver(name, text, timeout)
-        tried.append({"solver": name, "result": res, "s": round(dt, 3), "output": out[:600] if res not in ("sat", "unsat") else res})
-        if res in ("unsat", "sat"):
-            return {"result": res, "solver": name, "s": dt, "tried": tried, "raw": out}
-    return {"result": "unknown", "solver": None, "s": sum(t["s"] for t in tried), "tried": tried, "raw": ""}
+        try:
+            procs[name] = subprocess.Popen(SOLVERS[name](path, timeout), stdout=subprocess.PIPE, stderr=subprocess.STDOUT, text=True)
+        except OSError as e:
+            procs[name] = None
+    tried = {}
+    decisive = None
+    deadline = t0 + timeout + 5
+    pending = {n for n, p in procs.items() if p is not None}
+    for n, p in procs.items():
+        if p is None:
+            tried[n] = {"solver": n, "result": "error", "s": 0.0, "output": "not startable"}
+    while pending and decisive is None and time.time() < deadline:
+        for n in list(pending):
+            p = procs[n]
+            if p.poll() is not None:
+                out = (p.stdout.read() or "").strip()
+                first = out.split("\n", 1)[0].strip() if out else ""
+                res = first if first in ("sat", "unsat", "unknown") else ("timeout" if ("timeout" in out or "interrupted" in out or "resourceout" in out) else "error")
+                tried[n] = {"solver": n, "result": res, "s": round(time.time() - t0, 3), "output": res if res in ("sat", "unsat") else out[:400]}
+                pending.discard(n)
+                if res in ("sat", "unsat"):
+                    decisive = (n, res, out)
+                    break
+        if decisive is None and pending:
+            time.sleep(0.005)
+    for n in pending:
+        try:
+            procs[n].kill()
+            procs[n].wait()
+        except Exception:
+            pass
+        tried.setdefault(n, {"solver": n, "result": "cancelled" if decisive else "timeout", "s": round(time.time() - t0, 3), "output": ""})
+    try:
+        os.unlink(path)
+    except OSError:
+        pass
+    dt = time.time() - t0
+    tl = [tried[n] for n in order if n in tried]
+    if decisive:
+        return {"result": decisive[1], "solver": decisive[0], "s": dt, "tried": tl, "raw": decisive[2]}
+    return {"result": "unknown", "solver": None, "s": dt, "tried": tl, "raw": ""}
